@@ -359,16 +359,13 @@ class Fixture:  # pylint: disable=too-many-instance-attributes
                 self.aux["rx"] = rx.uid
                 if other is not None:
                     self.aux["tx"] = other.uid
-                # two spare partners for the entity-valued attributes
-                for i in (1, 2):
-                    sp_rx = type(rx).create(ws, vertices=V5 + i, name=f"rx{i}")
-                    self.aux[f"rx{i}"] = sp_rx.uid
-                    if other is not None:
-                        sp_tx = type(other).create(ws, vertices=V5 + 10.0 + i, name=f"tx{i}")
-                        self.aux[f"tx{i}"] = sp_tx.uid
-                d = ent.add_data({"txid": {"values": np.array([1, 1, 2, 2, 1], dtype="int32"), "association": "VERTEX",
-                                           "type": "referenced", "value_map": {1: "a", 2: "b"}}})
-                self.aux["refdata"] = d.uid
+                # one spare partner per role for the entity-valued attributes (two-valued domain: the workspace is
+                # re-read by a fresh reader after every step, so the fixture is kept small)
+                sp_rx = type(rx).create(ws, vertices=V5 + 1, name="rx1")
+                self.aux["rx1"] = sp_rx.uid
+                if other is not None:
+                    sp_tx = type(other).create(ws, vertices=V5 + 11.0, name="tx1")
+                    self.aux["tx1"] = sp_tx.uid
                 f = ent.add_data({"fdata": {"values": np.array([1.5, 2.5, 3.5, 4.5, 5.5]), "association": "VERTEX"}})
                 self.aux["floatdata"] = f.uid
             elif name in ("CurrentElectrode", "PotentialElectrode"):
@@ -378,13 +375,12 @@ class Fixture:  # pylint: disable=too-many-instance-attributes
                 pot.ab_cell_id = np.array([1, 2, 3, 4], dtype="int32")
                 pot.current_electrodes = cur
                 ent = cur if name == "CurrentElectrode" else pot
-                for i in (1, 2):
-                    c2 = objects.CurrentElectrode.create(ws, vertices=V5 + 20.0 * i, cells=LINE.copy(), name=f"cur{i}")
-                    c2.add_default_ab_cell_id()
-                    p2 = objects.PotentialElectrode.create(ws, vertices=V5 + 20.0 * i + 1, cells=LINE.copy(), name=f"pot{i}")
-                    p2.ab_cell_id = np.array([1, 2, 3, 4], dtype="int32")
-                    self.aux[f"cur{i}"] = c2.uid
-                    self.aux[f"pot{i}"] = p2.uid
+                c2 = objects.CurrentElectrode.create(ws, vertices=V5 + 20.0, cells=LINE.copy(), name="cur1")
+                c2.add_default_ab_cell_id()
+                p2 = objects.PotentialElectrode.create(ws, vertices=V5 + 21.0, cells=LINE.copy(), name="pot1")
+                p2.ab_cell_id = np.array([1, 2, 3, 4], dtype="int32")
+                self.aux["cur1"] = c2.uid
+                self.aux["pot1"] = p2.uid
                 self.aux["cur"] = cur.uid
                 self.aux["pot"] = pot.uid
             elif name == "GeoImage":
@@ -810,14 +806,14 @@ def domain(fx: Fixture, ent, attr, cur):  # pylint: disable=too-many-return-stat
             raise Skip(f"{attr}: no current partner of that role on this class")
         if canon(cur) == ("ref", str(fx.uid)):
             raise Skip(f"{attr} of this class is the object itself")
-        return [Ref(fx.aux[f"{key}1"]), Ref(fx.aux[f"{key}2"])], Ref(cur.uid)
+        return [Ref(fx.aux[f"{key}1"]), Ref(cur.uid)], Ref(cur.uid)
     if attr in ("current_electrodes", "potential_electrodes"):
         key = "cur" if attr == "current_electrodes" else "pot"
         if cur is None:
             raise Skip(f"{attr}: no current partner")
         if canon(cur) == ("ref", str(fx.uid)):
             raise Skip(f"{attr} of this class is the object itself")
-        return [Ref(fx.aux[f"{key}1"]), Ref(fx.aux[f"{key}2"])], Ref(cur.uid)
+        return [Ref(fx.aux[f"{key}1"]), Ref(cur.uid)], Ref(cur.uid)
     if cur is None:
         raise Skip("current value is None and no override gives a domain")
     if _is_entity(cur):
